@@ -6,8 +6,8 @@
 EXTENDS JetProg
 CONSTANTS Depth, Kinds
 
-Focals == {"ok", "fail", "failvar", "failset"}
-Catches == {"none", "catch", "catchvar"}
+Focals == {"ok", "fail", "failvar", "failset", "swok", "swfail"}
+Catches == {"none", "catch", "catchvar", "catchfail"}
 Outers == {"top", "inblock"}
 
 Focal(f) ==
@@ -15,6 +15,9 @@ Focal(f) ==
     [] f = "fail"    -> <<T("f0"), P("ff", FailE), T("f1")>>
     [] f = "failvar" -> <<T("f0"), P("ff", Var("g")), T("f1")>>
     [] f = "failset" -> <<SetS("ff", "g", Lit("z")), T("f1")>>
+    \* a SafeWriter stage writes to the try buffer like everything else: in order, and not at all when the body fails
+    [] f = "swok"    -> <<T("f0"), Raw("fw", Lit("w1")), T("f1")>>
+    [] f = "swfail"  -> <<T("f0"), Raw("fw", Lit("w1")), P("ff", FailE), T("f1")>>
 
 MkC(par) ==
   LET path == par[1]  f == par[2]  c == par[3]  o == par[4]
@@ -22,7 +25,10 @@ MkC(par) ==
       try  == CASE c = "none"     -> TryS("try", r.main)
                 [] c = "catch"    -> TryCatchS("try", r.main, "", <<T("c0"), P("cctx", Ctx)>>)
                 [] c = "catchvar" -> TryCatchS("try", r.main, "e", <<T("c0"), P("cie", IsSetE("e")), P("cs", Var("s"))>>)
-      main == <<T("pre"), LetS("ls", "s", Lit("s0"))>> \o Probes("a") \o <<try>> \o Probes("z")
+                \* the catch body fails too: the try statement fails as a whole (an outer try takes it)
+                [] c = "catchfail" -> TryS("otry", <<TryCatchS("try", r.main, "", <<T("c0"), P("cf", FailE), T("c1")>>)>>)
+      \* a later try that succeeds renders exactly its own body
+      main == <<T("pre"), LetS("ls", "s", Lit("s0"))>> \o Probes("a") \o <<try>> \o <<TryS("try2", <<T("t2"), P("t2s", Var("s"))>>)>> \o Probes("z")
       lib  == Tm("lib", "", <<>>, r.bl \o (IF o = "inblock" THEN <<BlockS("hostd", "host", <<>>, NoE, main)>> ELSE <<>>))
       ent  == IF o = "top" THEN Tm("main", "", <<"lib">>, main)
               ELSE Tm("main", "", <<"lib">>, <<YieldC("yh", "host", <<>>, NoE, <<T("C")>>)>>)
